@@ -288,13 +288,22 @@ def finish(run, ctx, proof):
     run.cov["best_queries_with_ties"] = st.get("bestt_ties", 0) + st.get("besti_ties", 0)
     run.cov["entries_vanished_at_restrict"] = st.get("vanished_keys", 0)
     run.cov["targets_vanished_at_restrict"] = st.get("vanished_targets", 0)
+    run.assumptions.append("hist_ok: cpuset initiators given to set_value are included in the root cpuset (otherwise memattr_outside_root_refuted applies); "
+                           "stored cpuset initiators pairwise disjoint for the 'included query' clause (otherwise memattr_get_last_set_overlap_refuted); "
+                           "cases violating either are generated too (streams overlap/outside) and compared model-vs-C only")
     run.cov["spec_checked_results"] = st.get("checked", 0)
     run.cov["results_left_to_correspondence_only"] = st.get("unchecked_results", 0)
     for k, v in st.items():
         if k.startswith("err_"):
             run.bump("err:" + k[4:], v)
     trusted = ["harness/hwv_memattrs.c (prints the public API results; sets parsed/printed bit by bit)",
-               "gen/memattrs_gen.py reference table (section-3 spec, independent of the Coq model)"]
+               "gen/memattrs_gen.py reference table (section-3 spec, independent of the Coq model)",
+               "model abstractions (Attr/Memattrs.v): topology = root cpuset + flat object list (type, gp_index, os_index, cpuset, local memory, subtype) "
+               "taken from the harness after load/restrict/dup/xml (what restrict removes is C08's subject, the new topology is an input of the model); "
+               "bitmaps are BSet values (C03); allocation failures not modelled; cached object pointers represented by gp_index plus an 'initialised' bit",
+               "theorems quantify over histories of the public API + restrict + dup meeting hist_ok (objects belong to the topology, set_value cpusets inside the root cpuset); "
+               "hwloc_internal_memattr_set_value by os_index and the XML export/import replay are modelled and compared with the C code on every run but are not covered by the invariant theorem",
+               "ocaml/drv_c14.ml (script parsing, bignum <-> Coq N conversion, printing)"]
     if proof is None:
         return run.finish(None, level="proof", extra_cov={"obligations": 0, "discharged": 0, "checker_cmd": "n/a",
                                                            "trusted_base": trusted, "theorems": []})
